@@ -4,6 +4,8 @@ package schemagen
 // the annotations (rule id, file, locator) the edit must produce.
 
 import (
+	"strings"
+
 	"github.com/bufbuild/verifharness/internal/hx"
 )
 
@@ -17,9 +19,11 @@ var wireJSONGroup = map[string]int{
 	"sint32": 6, "sint64": 7, "string": 8, "bytes": 9, "double": 10, "float": 11, "group": 12, "message": 13, "enum": 14,
 }
 
-func kindOf(fl *Field) string {
+// kindOf is the protoreflect Kind of the field by name: proto2 groups and editions delimited
+// message fields (feature on the field or inherited from the file) are "group".
+func kindOf(f *File, fl *Field) string {
 	switch {
-	case fl.Group != nil:
+	case fl.Group != nil || Delimited(f, fl):
 		return "group"
 	case fl.Ref == RefMsg:
 		return "message"
@@ -61,6 +65,21 @@ func retype(fl *Field, typ string, ref int) {
 		fl.SetFeature("field_presence", "")
 	}
 	fl.SetFeature("utf8_validation", "")
+	if ref != RefMsg {
+		fl.SetFeature("message_encoding", "")
+	}
+	if !packable(fl) {
+		fl.Packed = ""
+		fl.SetFeature("repeated_field_encoding", "")
+	}
+}
+
+func isExt(ml *MsgLoc) bool { return ml.Ext != nil }
+
+// unlabelled the field after it stopped being repeated
+func unpack(fl *Field) {
+	fl.Packed = ""
+	fl.SetFeature("repeated_field_encoding", "")
 }
 
 // reqExpect: MESSAGE_SAME_REQUIRED_FIELDS looks at the PROTO label, which stays "optional" for
@@ -88,9 +107,9 @@ func deleteExpects(ml *MsgLoc, numReserved, nameReserved bool) []Expect {
 }
 
 func deleteFieldOp(name string, resNum, resName bool, pred func(fl *Field) bool) *Op {
-	return &Op{Name: name, Kind: Breaking, Sites: func(s *Schema) []Site {
+	return &Op{Name: name, Kind: Breaking, KindOf: fieldSiteKind, Sites: func(s *Schema) []Site {
 		return fieldSites(s, func(ml *MsgLoc, fl *Field) bool {
-			if !pred(fl) {
+			if isExt(ml) || !pred(fl) {
 				return false
 			}
 			if fl.Group != nil && s.ExternalRefs(ml.Full+"."+fl.Group.Name) > 0 {
@@ -125,7 +144,7 @@ func deleteFieldOp(name string, resNum, resName bool, pred func(fl *Field) bool)
 }
 
 func fieldOp(name string, pred func(s *Schema, ml *MsgLoc, fl *Field) bool, apply func(s *Schema, ml *MsgLoc, fl *Field, r *hx.Rand) ([]Expect, bool)) *Op {
-	return &Op{Name: name, Kind: Breaking, Sites: func(s *Schema) []Site {
+	return &Op{Name: name, Kind: Breaking, KindOf: fieldSiteKind, Sites: func(s *Schema) []Site {
 		return fieldSites(s, func(ml *MsgLoc, fl *Field) bool { return pred(s, ml, fl) })
 	}, Apply: func(s *Schema, site Site, r *hx.Rand) ([]Expect, bool) {
 		ml, fl := s.fieldAt(site)
@@ -174,6 +193,11 @@ func singular(fl *Field) bool {
 	return plainField(fl) && fl.Oneof == "" && fl.Label != "repeated" && !isRequired(fl)
 }
 
+// singularG: like singular, proto2 group fields included
+func singularG(fl *Field) bool {
+	return fl.MapKey == "" && fl.Oneof == "" && fl.Label != "repeated" && !isRequired(fl)
+}
+
 func canDefault(ml *MsgLoc, fl *Field) bool {
 	return !ml.F.IsProto3() && plainField(fl) && fl.Label != "repeated" && fl.Ref != RefMsg && fl.Feature("field_presence") != "IMPLICIT"
 }
@@ -206,6 +230,24 @@ func otherDefault(s *Schema, fl *Field, r *hx.Rand) string {
 		}
 	}
 	return ""
+}
+
+// hasOtherDefault: otherDefault can succeed (bool has a single literal in the pool; an enum needs a
+// value with another number).
+func hasOtherDefault(s *Schema, fl *Field) bool {
+	if fl.Ref == RefEnum {
+		el := s.EnumByName(fl.Type)
+		if el == nil {
+			return false
+		}
+		for _, v := range el.E.Values {
+			if v.Num != el.E.Values[0].Num {
+				return true
+			}
+		}
+		return false
+	}
+	return fl.Type != "bool"
 }
 
 func defaultIsNonZero(s *Schema, fl *Field) bool {
@@ -269,22 +311,26 @@ var BreakingFieldOps = []*Op{
 		old := fl.Type
 		g := newGen(s, r, ml.F)
 		retype(fl, hx.Pick(r, g.msgs).Full, RefMsg)
-		return typeExpects(ml, fl, old, "message"), true
+		// "group" when the file default makes the new message field delimited
+		return typeExpects(ml, fl, old, kindOf(ml.F, fl)), true
 	}),
 	fieldOp("FieldTypeMessageToScalar", func(s *Schema, ml *MsgLoc, fl *Field) bool {
 		return plainField(fl) && fl.Ref == RefMsg
 	}, func(s *Schema, ml *MsgLoc, fl *Field, r *hx.Rand) ([]Expect, bool) {
+		old := kindOf(ml.F, fl)
 		nw := hx.Pick(r, scalarTypes)
 		retype(fl, nw, RefScalar)
-		return typeExpects(ml, fl, "message", nw), true
+		return typeExpects(ml, fl, old, nw), true
 	}),
+	// also the value type of a map and delimited fields: the type NAME changes, kind and
+	// encoding stay
 	fieldOp("FieldTypeMessageToMessage", func(s *Schema, ml *MsgLoc, fl *Field) bool {
-		return plainField(fl) && fl.Ref == RefMsg && len(newGen(s, nil, ml.F).msgs) > 1
+		return fl.Group == nil && fl.Ref == RefMsg && len(newGen(s, nil, ml.F).msgs) > 1
 	}, func(s *Schema, ml *MsgLoc, fl *Field, r *hx.Rand) ([]Expect, bool) {
 		g := newGen(s, r, ml.F)
 		for i := 0; i < 10; i++ {
 			if t := hx.Pick(r, g.msgs).Full; t != fl.Type {
-				retype(fl, t, RefMsg)
+				fl.Type = t
 				return typeNameExpects(ml, fl, true), true
 			}
 		}
@@ -326,12 +372,15 @@ var BreakingFieldOps = []*Op{
 		return typeNameExpects(ml, fl, false), true
 	}),
 	fieldOp("FieldTypeEnumToOtherEnum", func(s *Schema, ml *MsgLoc, fl *Field) bool {
-		return plainField(fl) && fl.Ref == RefEnum
+		return fl.Group == nil && fl.Ref == RefEnum
 	}, func(s *Schema, ml *MsgLoc, fl *Field, r *hx.Rand) ([]Expect, bool) {
 		ne := &Enum{Name: "Other" + s.fresh("")}
 		ne.Values = []*EnumValue{{Name: upper(ne.Name) + "_ZERO", Num: 0}, {Name: upper(ne.Name) + "_ONE", Num: 1}}
 		ne.HiNum = 1
-		if r.Bool() {
+		if ml.F.IsEditions() && ml.F.Feature("enum_type") == "CLOSED" && r.Bool() {
+			ne.EnumType = "OPEN"
+		}
+		if !isExt(ml) && r.Bool() {
 			ml.M.Enums = append(ml.M.Enums, ne)
 			retype(fl, ml.Full+"."+ne.Name, RefEnum)
 		} else {
@@ -363,22 +412,23 @@ var BreakingFieldOps = []*Op{
 	}),
 
 	// cardinality
-	fieldOp("FieldOptionalToRepeated", func(s *Schema, ml *MsgLoc, fl *Field) bool { return singular(fl) },
+	fieldOp("FieldOptionalToRepeated", func(s *Schema, ml *MsgLoc, fl *Field) bool { return singularG(fl) },
 		func(s *Schema, ml *MsgLoc, fl *Field, r *hx.Rand) ([]Expect, bool) {
 			fl.Label, fl.Default = "repeated", ""
 			fl.SetFeature("field_presence", "")
 			return cardExpects(ml, fl, true, true), true
 		}),
-	fieldOp("FieldRepeatedToOptional", func(s *Schema, ml *MsgLoc, fl *Field) bool { return plainField(fl) && fl.Label == "repeated" },
+	fieldOp("FieldRepeatedToOptional", func(s *Schema, ml *MsgLoc, fl *Field) bool { return fl.MapKey == "" && fl.Label == "repeated" },
 		func(s *Schema, ml *MsgLoc, fl *Field, r *hx.Rand) ([]Expect, bool) {
 			fl.Label = ""
+			unpack(fl)
 			if ml.F.IsProto2() {
 				fl.Label = "optional"
 			}
 			return cardExpects(ml, fl, true, true), true
 		}),
 	fieldOp("FieldOptionalToRequired", func(s *Schema, ml *MsgLoc, fl *Field) bool {
-		return !ml.F.IsProto3() && singular(fl) && fl.Feature("field_presence") == ""
+		return !isExt(ml) && !ml.F.IsProto3() && singularG(fl) && fl.Feature("field_presence") == ""
 	}, func(s *Schema, ml *MsgLoc, fl *Field, r *hx.Rand) ([]Expect, bool) {
 		if ml.F.IsEditions() {
 			fl.SetFeature("field_presence", "LEGACY_REQUIRED")
@@ -387,7 +437,7 @@ var BreakingFieldOps = []*Op{
 		}
 		return append(cardExpects(ml, fl, true, true), reqExpect(ml, eField("MESSAGE_SAME_REQUIRED_FIELDS", ml, fl, ""))), true
 	}),
-	fieldOp("FieldRequiredToOptional", func(s *Schema, ml *MsgLoc, fl *Field) bool { return plainField(fl) && isRequired(fl) },
+	fieldOp("FieldRequiredToOptional", func(s *Schema, ml *MsgLoc, fl *Field) bool { return fl.MapKey == "" && isRequired(fl) },
 		func(s *Schema, ml *MsgLoc, fl *Field, r *hx.Rand) ([]Expect, bool) {
 			if ml.F.IsEditions() {
 				fl.SetFeature("field_presence", "")
@@ -397,7 +447,7 @@ var BreakingFieldOps = []*Op{
 			return append(cardExpects(ml, fl, true, true), reqExpect(ml, eMsg("MESSAGE_SAME_REQUIRED_FIELDS", ml, ""))), true
 		}),
 	fieldOp("FieldImplicitToExplicitPresence", func(s *Schema, ml *MsgLoc, fl *Field) bool {
-		if !singular(fl) || fl.Ref == RefMsg {
+		if isExt(ml) || !singular(fl) || fl.Ref == RefMsg {
 			return false
 		}
 		return (ml.F.IsProto3() && fl.Label == "") || (ml.F.IsEditions() && fl.Feature("field_presence") == "IMPLICIT")
@@ -410,7 +460,7 @@ var BreakingFieldOps = []*Op{
 		return cardExpects(ml, fl, false, false), true
 	}),
 	fieldOp("FieldExplicitToImplicitPresence", func(s *Schema, ml *MsgLoc, fl *Field) bool {
-		if !singular(fl) || fl.Ref == RefMsg {
+		if isExt(ml) || !singular(fl) || fl.Ref == RefMsg {
 			return false
 		}
 		return (ml.F.IsProto3() && fl.Label == "optional") ||
@@ -429,47 +479,64 @@ var BreakingFieldOps = []*Op{
 				return false
 			}
 		}
-		return plainField(fl) && fl.Label == "repeated"
+		return !isExt(ml) && plainField(fl) && fl.Label == "repeated"
 	},
 		func(s *Schema, ml *MsgLoc, fl *Field, r *hx.Rand) ([]Expect, bool) {
+			wasDelimited := Delimited(ml.F, fl)
 			fl.Label, fl.MapKey, fl.JSType, fl.CType = "", hx.Pick(r, mapKeyTypes), "", ""
 			fl.SetFeature("utf8_validation", "")
-			return cardExpects(ml, fl, true, false), true
+			fl.SetFeature("message_encoding", "")
+			unpack(fl)
+			out := cardExpects(ml, fl, true, false)
+			if wasDelimited {
+				// a map value is never delimited: the element kind changes as well
+				out = append(out, typeExpects(ml, fl, "group", "message")...)
+			}
+			return out, true
 		}),
 	fieldOp("FieldMapToRepeated", func(s *Schema, ml *MsgLoc, fl *Field) bool { return fl.MapKey != "" },
 		func(s *Schema, ml *MsgLoc, fl *Field, r *hx.Rand) ([]Expect, bool) {
 			fl.Label, fl.MapKey = "repeated", ""
-			return cardExpects(ml, fl, true, false), true
+			out := cardExpects(ml, fl, true, false)
+			if Delimited(ml.F, fl) {
+				out = append(out, typeExpects(ml, fl, "message", "group")...)
+			}
+			return out, true
 		}),
 
 	// names
 	fieldOp("FieldRename", func(s *Schema, ml *MsgLoc, fl *Field) bool { return fl.Group == nil },
 		func(s *Schema, ml *MsgLoc, fl *Field, r *hx.Rand) ([]Expect, bool) {
+			about := ""
+			if isExt(ml) {
+				about = "ext:" + extFull(ml.Ext.xl, fl) // the locator below uses the NEW full name
+			}
 			fl.Name = "renamed_" + s.fresh("")
 			out := []Expect{eField("FIELD_SAME_NAME", ml, fl, ":name")}
-			if fl.JSONName == "" {
+			out[0].About = about
+			if fl.JSONName == "" && !isExt(ml) { // FIELD_SAME_JSON_NAME skips extensions
 				out = append(out, eField("FIELD_SAME_JSON_NAME", ml, fl, ""))
 			}
 			return out, true
 		}),
-	fieldOp("FieldChangeJSONName", func(s *Schema, ml *MsgLoc, fl *Field) bool { return fl.Group == nil && fl.JSONName != "" },
+	fieldOp("FieldChangeJSONName", func(s *Schema, ml *MsgLoc, fl *Field) bool { return !isExt(ml) && fl.Group == nil && fl.JSONName != "" },
 		func(s *Schema, ml *MsgLoc, fl *Field, r *hx.Rand) ([]Expect, bool) {
 			fl.JSONName = "jn" + s.fresh("")
 			return []Expect{eField("FIELD_SAME_JSON_NAME", ml, fl, ":json")}, true
 		}),
-	fieldOp("FieldAddJSONName", func(s *Schema, ml *MsgLoc, fl *Field) bool { return fl.Group == nil && fl.JSONName == "" },
+	fieldOp("FieldAddJSONName", func(s *Schema, ml *MsgLoc, fl *Field) bool { return !isExt(ml) && fl.Group == nil && fl.JSONName == "" },
 		func(s *Schema, ml *MsgLoc, fl *Field, r *hx.Rand) ([]Expect, bool) {
 			fl.JSONName = "jn" + s.fresh("")
 			return []Expect{eField("FIELD_SAME_JSON_NAME", ml, fl, ":json")}, true
 		}),
-	fieldOp("FieldRemoveJSONName", func(s *Schema, ml *MsgLoc, fl *Field) bool { return fl.Group == nil && fl.JSONName != "" },
+	fieldOp("FieldRemoveJSONName", func(s *Schema, ml *MsgLoc, fl *Field) bool { return !isExt(ml) && fl.Group == nil && fl.JSONName != "" },
 		func(s *Schema, ml *MsgLoc, fl *Field, r *hx.Rand) ([]Expect, bool) {
 			fl.JSONName = ""
 			return []Expect{eField("FIELD_SAME_JSON_NAME", ml, fl, "")}, true
 		}),
 
 	// oneofs
-	fieldOp("FieldMoveIntoOneof", func(s *Schema, ml *MsgLoc, fl *Field) bool { return singular(fl) },
+	fieldOp("FieldMoveIntoOneof", func(s *Schema, ml *MsgLoc, fl *Field) bool { return !isExt(ml) && singularG(fl) },
 		func(s *Schema, ml *MsgLoc, fl *Field, r *hx.Rand) ([]Expect, bool) {
 			names := ml.M.oneofNames()
 			if len(names) > 0 && r.Bool() {
@@ -521,7 +588,9 @@ var BreakingFieldOps = []*Op{
 		}),
 
 	// defaults (FIELD_SAME_DEFAULT exists in v2 only)
-	fieldOp("FieldChangeDefault", func(s *Schema, ml *MsgLoc, fl *Field) bool { return canDefault(ml, fl) && fl.Default != "" },
+	fieldOp("FieldChangeDefault", func(s *Schema, ml *MsgLoc, fl *Field) bool {
+		return canDefault(ml, fl) && fl.Default != "" && hasOtherDefault(s, fl)
+	},
 		func(s *Schema, ml *MsgLoc, fl *Field, r *hx.Rand) ([]Expect, bool) {
 			d := otherDefault(s, fl, r)
 			if d == "" {
@@ -530,7 +599,9 @@ var BreakingFieldOps = []*Op{
 			fl.Default = d
 			return []Expect{eField("FIELD_SAME_DEFAULT", ml, fl, ":default")}, true
 		}),
-	fieldOp("FieldAddDefault", func(s *Schema, ml *MsgLoc, fl *Field) bool { return canDefault(ml, fl) && fl.Default == "" },
+	fieldOp("FieldAddDefault", func(s *Schema, ml *MsgLoc, fl *Field) bool {
+		return canDefault(ml, fl) && fl.Default == "" && (fl.Ref != RefEnum || hasOtherDefault(s, fl))
+	},
 		func(s *Schema, ml *MsgLoc, fl *Field, r *hx.Rand) ([]Expect, bool) {
 			d := otherDefault(s, fl, r)
 			if d == "" {
@@ -563,7 +634,7 @@ var BreakingFieldOps = []*Op{
 		return []Expect{eField("FIELD_SAME_JSTYPE", ml, fl, ":jstype")}, true
 	}),
 	fieldOp("FieldSetCType", func(s *Schema, ml *MsgLoc, fl *Field) bool {
-		return plainField(fl) && fl.Ref == RefScalar && (fl.Type == "string" || fl.Type == "bytes") && fl.CType == ""
+		return !isExt(ml) && plainField(fl) && fl.Ref == RefScalar && (fl.Type == "string" || fl.Type == "bytes") && fl.CType == ""
 	}, func(s *Schema, ml *MsgLoc, fl *Field, r *hx.Rand) ([]Expect, bool) {
 		fl.CType = "CORD"
 		return []Expect{eField("FIELD_SAME_CPP_STRING_TYPE", ml, fl, ":ctype")}, true
@@ -571,7 +642,62 @@ var BreakingFieldOps = []*Op{
 	fieldOp("FieldUtf8ValidationNone", func(s *Schema, ml *MsgLoc, fl *Field) bool {
 		return ml.F.IsEditions() && plainField(fl) && fl.Ref == RefScalar && fl.Type == "string" && fl.Feature("utf8_validation") == ""
 	}, func(s *Schema, ml *MsgLoc, fl *Field, r *hx.Rand) ([]Expect, bool) {
-		fl.SetFeature("utf8_validation", "NONE")
+		// the opposite of the file default
+		if ml.F.Feature("utf8_validation") == "NONE" {
+			fl.SetFeature("utf8_validation", "VERIFY")
+		} else {
+			fl.SetFeature("utf8_validation", "NONE")
+		}
 		return []Expect{eField("FIELD_SAME_UTF8_VALIDATION", ml, fl, ":feat4"), eField("FIELD_SAME_JAVA_UTF8_VALIDATION", ml, fl, "")}, true
 	}),
+
+	// ---- group / delimited encoded fields: the message TYPE NAME changes, number and encoding stay
+	// (proto2: the group is re-declared under another name, which also renames the field)
+	fieldOp("GroupChangeTypeName", func(s *Schema, ml *MsgLoc, fl *Field) bool {
+		return !isExt(ml) && fl.Group != nil && s.ExternalRefs(ml.Full+"."+fl.Group.Name) == 0
+	}, func(s *Schema, ml *MsgLoc, fl *Field, r *hx.Rand) ([]Expect, bool) {
+		fl.Group.Name = "Grp" + s.fresh("") + "x"
+		fl.Name = strings.ToLower(fl.Group.Name)
+		out := typeNameExpects(ml, fl, true)
+		out = append(out, eField("FIELD_SAME_NAME", ml, fl, ":name"), eField("FIELD_SAME_JSON_NAME", ml, fl, ""),
+			eMsg("MESSAGE_NO_DELETE", ml, ""))
+		return out, true
+	}),
+	// delimited <-> length-prefixed flip of one editions message field (feature on the field)
+	fieldOp("FieldToggleDelimited", func(s *Schema, ml *MsgLoc, fl *Field) bool {
+		return ml.F.IsEditions() && fl.Ref == RefMsg && fl.MapKey == "" && fl.Group == nil
+	}, func(s *Schema, ml *MsgLoc, fl *Field, r *hx.Rand) ([]Expect, bool) {
+		old := kindOf(ml.F, fl)
+		inherited := ml.F.Feature("message_encoding") == "DELIMITED"
+		switch {
+		case old == "group" && inherited:
+			fl.SetFeature("message_encoding", "LENGTH_PREFIXED")
+		case old == "group":
+			fl.SetFeature("message_encoding", hx.Pick(r, []string{"", "LENGTH_PREFIXED"}))
+		case inherited: // explicit LENGTH_PREFIXED so far
+			fl.SetFeature("message_encoding", hx.Pick(r, []string{"", "DELIMITED"}))
+		default:
+			fl.SetFeature("message_encoding", "DELIMITED")
+		}
+		return typeExpects(ml, fl, old, kindOf(ml.F, fl)), true
+	}),
+	// the key type of a map: the synthetic key field has no location of its own (reported at the
+	// map field's type name)
+	fieldOp("MapKeyTypeChange", func(s *Schema, ml *MsgLoc, fl *Field) bool { return fl.MapKey != "" },
+		func(s *Schema, ml *MsgLoc, fl *Field, r *hx.Rand) ([]Expect, bool) {
+			old := fl.MapKey
+			nw := old
+			for nw == old {
+				nw = hx.Pick(r, mapKeyTypes)
+			}
+			fl.MapKey = nw
+			out := []Expect{eField("FIELD_SAME_TYPE", ml, fl, ":typename")}
+			if wireJSONGroup[old] != wireJSONGroup[nw] {
+				out = append(out, eField("FIELD_WIRE_JSON_COMPATIBLE_TYPE", ml, fl, ":typename"))
+			}
+			if wireGroup[old] != wireGroup[nw] {
+				out = append(out, eField("FIELD_WIRE_COMPATIBLE_TYPE", ml, fl, ":typename"))
+			}
+			return out, true
+		}),
 }
